@@ -357,6 +357,8 @@ pub fn coverage_leg(ctx: &Ctx, rep: &mut Report) {
     let mut cmd = Command::new("cargo");
     cmd.current_dir(harness_dir(ctx))
         .env("RUSTFLAGS", "-Cinstrument-coverage")
+        // instrumented proc-macros / build scripts run during the build: keep their profiles out of /repo
+        .env("LLVM_PROFILE_FILE", format!("{dir}/build-%p-%m.profraw"))
         .env("CARGO_NET_OFFLINE", "true")
         .args(["+nightly", "build", "--release", "--offline", "--target-dir", target_dir]);
     if mock {
@@ -390,7 +392,7 @@ pub fn coverage_leg(ctx: &Ctx, rep: &mut Report) {
         return fail(rep, "instrumented workload did not run to completion".into());
     }
     let raws: Vec<String> = std::fs::read_dir(&dir)
-        .map(|rd| rd.flatten().map(|e| e.path().to_string_lossy().to_string()).filter(|p| p.ends_with(".profraw")).collect())
+        .map(|rd| rd.flatten().map(|e| e.path().to_string_lossy().to_string()).filter(|p| p.ends_with(".profraw") && !p.contains("/build-")).collect())
         .unwrap_or_default();
     let merged = format!("{dir}/cov.profdata");
     let ok = Command::new(&profdata).arg("merge").arg("-sparse").args(&raws).args(["-o", &merged]).status().map(|s| s.success()).unwrap_or(false);
